@@ -78,7 +78,13 @@ def run_plan(chk: Check, select, runs, mode="solve", objective=0, time_limit=Non
         label = f"{mode}/{name}/{cfg or 'default'}" + (f"/obj={objective}" if mode != "solve" else "") + (f"/{kw}" if kw else "")
         params = dict(model=name, cfg=cfg, mode=mode, select=list(select), objective=objective, known=known)
         params.update(kw)
+        n_before = len(chk.violations)
         r = chk.explore("solve", params, label, time_limit=time_limit or (900 if chk.tier == "quick" else 3600), flags=dict(loop_budget=6000))
+        for v in chk.violations[n_before:]:
+            # a run made on behalf of this property: whatever it finds counts for it (the query family is kept)
+            if v.get("prop") != chk.pid:
+                v["query_family"] = v.get("prop")
+                v["prop"] = chk.pid
         batch.extend(r.acc.validate[:25] if chk.tier == "quick" else r.acc.validate)
         if r.acc.counts.get("budget-unlisted"):
             chk.inconclusive.append(f"{label}: {r.acc.counts['budget-unlisted']} path(s) exceeded a loop budget (no result to judge; see check C04)")
